@@ -280,3 +280,39 @@ Arguments remove_all {C}. Arguments delete_one {C}. Arguments delete_phase {C}.
 Arguments write_one {C}. Arguments write_phase {C}. Arguments commit {C}.
 Arguments mkdir_phase {C}. Arguments commit_pinned {C}.
 Arguments finish_command {C}. Arguments load_files {C}. Arguments load_provider {C}.
+
+(* ---------------------------------------------------------------- specification vocabulary *)
+(* no path is both a regular file and a directory *)
+Definition fs_wf {C} (fs : fsys C) : Prop :=
+  forall p, fs_is_file fs p = true -> fs_is_dir fs p = false.
+
+(* the tree with every file tagged by its own path *)
+Definition tag_fs {T} (fs : fsys T) : fsys (tagged T) :=
+  {| fs_files := tag_files (fs_files fs); fs_dirs := fs_dirs fs |}.
+
+Definition no_git_view : git_view := {| gv_repo := RepoNone; gv_status := [] |}.
+
+(* tree-shaped file systems: [fs_wf], a duplicate-free file map, "/" is a directory, the parent
+   of every entry is a directory *)
+Record fs_tree {C} (fs : fsys C) : Prop := {
+  tr_wf : fs_wf fs;
+  tr_nodup : NoDup (akeys (fs_files fs));
+  tr_root : fs_is_dir fs [SLASH] = true;
+  tr_parent : forall p, In p (fs_entries fs) -> fs_is_dir fs (dir p) = true }.
+Arguments tr_wf {C} fs. Arguments tr_nodup {C} fs. Arguments tr_root {C} fs. Arguments tr_parent {C} fs.
+
+(* a file to delete: a clean absolute name below a directory that the clean-up preserves
+   (a project root or an ancestor of one) *)
+Definition anchored (preserve : list str) (f : str) : Prop :=
+  exists ps rest nb, f = cpath ((ps ++ rest) ++ [nb]) /\ Forall regular (ps ++ rest) /\ regular nb
+                     /\ In (cpath ps) preserve.
+
+(* a file to write: directory components and base name *)
+Definition target := (list str * str)%type.
+Definition tpath (t : target) : str := cpath (fst t ++ [snd t]).
+Definition treg (t : target) : Prop := Forall regular (fst t) /\ regular (snd t).
+(* [p] is one of the directories on the way to [t] *)
+Definition on_the_way (p : str) (t : target) : Prop := exists k, p = cpath (firstn k (fst t)).
+(* no file to write is a directory on the way to another one *)
+Definition independent (tl : list target) : Prop :=
+  forall t u, In t tl -> In u tl -> ~ on_the_way (tpath t) u.
